@@ -121,8 +121,9 @@ def gen_models(ctx):
         for j in range(rng.randint(2, 4)):
             if rng.chance(1, 2):
                 rl = [rng.choice(SPECIES) for _ in range(rng.randint(0, 4))]
-                rx.append(massaction_rxn(rl, rng, "k%d" % j))
-                params["k%d" % j] = rng.choice(DYADIC)
+                kn = "k%d" % (j if rng.chance(1, 2) else 0)       # half of the mass-action reactions share the constant k0
+                rx.append(massaction_rxn(rl, rng, kn))
+                params.setdefault(kn, rng.choice(DYADIC))
             else:
                 rx.append(hill_rxn(rng, rng.choice(HILL), j))
                 params.update({"k%d" % j: rng.choice(DYADIC), "K%d" % j: rng.choice(DYADIC), "n%d" % j: rng.choice(HILL_N)})
